@@ -217,8 +217,8 @@ def check(ctx: Ctx):
     check_length_tracker(ctx)
     io.check_sequence_keys(ctx, f"{EM}.EmulsionTimeCourse.to_file", f"{EM}.EmulsionTimeCourse.from_file", "_write_hdf_dataset", "EmulsionTimeCourse")
     io.check_dataset_pair(ctx, f"{EM}.Emulsion._write_hdf_dataset", f"{EM}.Emulsion._from_hdf_dataset", "Emulsion")
-    ctx.expect("FORWARD", 16)
-    ctx.expect("PIPE", 6)
+    ctx.expect("FORWARD", 15)
+    ctx.expect("PIPE", 5)
     ctx.expect("NONETEST", 1)
     ctx.expect("TRYGUARD", 1)
     ctx.expect("PAIR", 5)
